@@ -132,6 +132,7 @@ def outbound(sched: List[bool]) -> bool:
             if REPLAY: note(deadlock=d.who, schedule="".join(x[0] for x in s.trace)[-200:])
             return False
         except (LIB + (Exception,)) as e:
+            __import__('vf.h').h.reraise_if_harness(e)
             reached()
             if REPLAY: note(raised=f"{type(e).__name__}: {e}", schedule="".join(x[0] for x in s.trace))
             return False
